@@ -51,36 +51,51 @@ def entry_job(job):
     traces = []
     groups = {}
     for c in combos:
-        groups.setdefault((c["model"], c["mode"]), []).append(c["entry"])
-    for (model, mode), entries in sorted(groups.items()):
+        groups.setdefault(c["mode"], {}).setdefault(c["model"], []).append(c["entry"])
+    for mode, bymodel in sorted(groups.items()):
         for _ in range(n):
             mix = gen.some_mixture(rng, p_builtin=0.6)
             membrane = rp.make_membrane(rng, mix)
+            # ONE Pervaporation object answers every entry point for both activity models (the quantifier says "the same
+            # membrane, mixture, ..."): state kept inside the object between calls would show up as a disagreement
             perv = pv.Pervaporation(membrane=membrane, mixture=mix)
             T = rng.uniform(290.0, 380.0)
+            if rng.random() < 0.3:
+                T = float(rng.choice(membrane.ideal_experiments.experiments).temperature)
             basis = rng.choice(["weight", "weight", "molar"])
             c = pv.Composition(p=rng.uniform(0.05, 0.95), type=basis)
-            q = {"T": T, "comp": c, "model": model, "prec": rng.choice([5e-5, 1e-6, 3e-4]),
-                 "Tperm": rng.uniform(200.0, T - 25.0) if mode == "temp" else None,
-                 "pperm": rng.uniform(0.0, 3.0) if mode == "press" else None,
-                 "A": gen.logu(rng, 1e-2, 10.0), "m0": gen.logu(rng, 1.0, 100.0), "dt": gen.logu(rng, 1e-3, 1e-1)}
-            try:
-                std = perv.calculate_partial_fluxes(T, c, precision=q["prec"], permeate_temperature=q["Tperm"],
-                                                    permeate_pressure=q["pperm"], calculation_type=model)
-            except Exception:  # noqa: BLE001
-                continue
-            cs = None
-            if any(e.startswith("nonideal") for e in entries):
-                cs = rp.make_curve_set(rng, mix, n_curves=1, n_points=4, t_center=T)
-            tr = [{"ev": "Question", "model": model, "mode": mode, "T": F(T), "x_in": F(c.p), "basis": basis,
-                   "xw": F(c.to_weight(mix).p), "prec": F(q["prec"]), "mixname": mix.name, "Jstd": [F(std[0]), F(std[1])]}]
-            for e in sorted(entries):
+            base = {"T": T, "comp": c, "prec": rng.choice([5e-5, 1e-6, 3e-4]),
+                    "Tperm": rng.uniform(200.0, T - 25.0) if mode == "temp" else None,
+                    "pperm": rng.uniform(0.0, 3.0) if mode == "press" else None,
+                    "A": gen.logu(rng, 1e-2, 10.0), "m0": gen.logu(rng, 1.0, 100.0), "dt": gen.logu(rng, 1e-3, 1e-1)}
+            cs = rp.make_curve_set(rng, mix, n_curves=1, n_points=4, t_center=T)
+            models = sorted(bymodel)
+            rng.shuffle(models)
+            # the standalone answers come from a FRESH object (one per model), so that they are not affected by the session
+            std = {}
+            for model in models:
                 try:
-                    a = answer(e, perv, mix, membrane, q, cs)
-                    a.update(ev="Answer", entry=e, raised=False)
-                except Exception as ex:  # noqa: BLE001
-                    a = {"ev": "Answer", "entry": e, "raised": True, "exc": type(ex).__name__, "hasJ": False, "J": [0.0, 0.0],
-                         "hasY": False, "y": 0.0, "hasSf": False, "sf": 0.0, "hasPsi": False, "psi": 0.0, "sf_inverted": False}
-                tr.append(a)
-            traces.append(tr)
+                    fresh = pv.Pervaporation(membrane=membrane, mixture=mix)
+                    std[model] = fresh.calculate_partial_fluxes(T, c, precision=base["prec"], permeate_temperature=base["Tperm"],
+                                                                permeate_pressure=base["pperm"], calculation_type=model)
+                except Exception:  # noqa: BLE001
+                    std[model] = None
+            for model in models:
+                if std[model] is None:
+                    continue
+                q = dict(base, model=model)
+                tr = [{"ev": "Question", "model": model, "mode": mode, "T": F(T), "x_in": F(c.p), "basis": basis,
+                       "xw": F(c.to_weight(mix).p), "prec": F(q["prec"]), "mixname": mix.name,
+                       "Jstd": [F(std[model][0]), F(std[model][1])]}]
+                entries = list(bymodel[model])
+                rng.shuffle(entries)
+                for e in entries:
+                    try:
+                        a = answer(e, perv, mix, membrane, q, cs)
+                        a.update(ev="Answer", entry=e, raised=False)
+                    except Exception as ex:  # noqa: BLE001
+                        a = {"ev": "Answer", "entry": e, "raised": True, "exc": type(ex).__name__, "hasJ": False, "J": [0.0, 0.0],
+                             "hasY": False, "y": 0.0, "hasSf": False, "sf": 0.0, "hasPsi": False, "psi": 0.0, "sf_inverted": False}
+                    tr.append(a)
+                traces.append(tr)
     return traces
